@@ -1,37 +1,79 @@
 ---------------------------- MODULE MC_GenStorage ----------------------------
 (***************************************************************************)
 (* Generator: behaviours of Storage.tla exported as call sequences for the *)
-(* Go harness (hv_storage), each call with the reply the specification     *)
-(* gives it.  Two uses of the same module:                                  *)
-(*   MC_EnumStorage*.cfg  breadth-first, Menu <- EnumMenu: EVERY call        *)
-(*                        sequence of length MaxLen over the small alphabet *)
-(*                        (the history is part of the state, so each        *)
-(*                        sequence is one state, generated exactly once);   *)
-(*   MC_GenStorage*.cfg   -simulate -seed S, Menu <- GenMenu: random         *)
-(*                        behaviours of length MaxLen over the full key     *)
-(*                        space.                                            *)
+(* Go harness (hv_storage), each call with the status the specification    *)
+(* replies.  Two uses of the same module:                                  *)
+(*   MC_EnumStorage*.cfg  (SPECIFICATION EnumSpec, breadth-first, Menu <-   *)
+(*        EnumMenu): EVERY call sequence of length MaxLen over the small    *)
+(*        alphabet - the history is part of the state, so each sequence is  *)
+(*        one state, generated exactly once;                                *)
+(*   MC_GenStorage*.cfg   (SPECIFICATION GenSpec, -simulate -seed S):       *)
+(*        random behaviours of length MaxLen over the full key space; the   *)
+(*        calls are offered in classes (hit / miss of every operation) so   *)
+(*        that both are taken often (all are steps of Storage!Next).        *)
+(* A behaviour is written when its final "done" step is taken (in           *)
+(* simulation mode TLC evaluates the constraint on every candidate          *)
+(* successor, so the export must hang on a step that has no sibling).       *)
 (* Run with -workers 1 (the counter lives in TLC register 1).               *)
 (***************************************************************************)
 EXTENDS MC_Storage, Json
 
 CONSTANT MaxLen
 
-VARIABLE hist
-gvars == <<kv, last, reply, hist>>
+VARIABLES hist, done
+gvars == <<kv, last, reply, hist, done>>
 
 ASSUME TLCSet(1, 0)
 
-GenInit == Init /\ hist = <<>>
+GenInit == Init /\ hist = <<>> /\ done = FALSE
+
+Record == hist' = Append(hist, [c |-> last', exp |-> reply'.st])
+
+Finish ==
+  /\ Len(hist) = MaxLen
+  /\ ~done
+  /\ done' = TRUE
+  /\ UNCHANGED <<kv, last, reply, hist>>
+
+EnumNext ==
+  \/ Len(hist) < MaxLen /\ Next /\ Record /\ done' = FALSE
+  \/ Finish
+
+\* The random generator offers the calls in classes (hits and misses of every operation), one
+\* disjunct per class, so that a random walk takes them about equally often; every class is a set
+\* of steps of Storage!Next.
+Present(s, c) == s[KeyOf(c)] # NoEntry
+Do(C) == Len(hist) < MaxLen /\ (\E c \in C : Step(c)) /\ Record /\ done' = FALSE
+\* (calls on the EMPTY store other than create are covered by the exhaustive enumeration)
+NonEmpty == Dom(kv) # {}
+Hits(c) == Apply(kv, c).reply.set # {}
+
+GCreateNew  == Do({c \in Creates : ~Present(kv, c)})
+GCreateDup  == Do({c \in Creates : Present(kv, c)})
+GUpdateHit  == Do({c \in Updates : Present(kv, c)})
+GUpdateMiss == NonEmpty /\ Do({c \in Updates : ~Present(kv, c)})
+GGetHit     == Do({c \in Gets : Present(kv, c)})
+GGetMiss    == NonEmpty /\ Do({c \in Gets : ~Present(kv, c)})
+GDeleteHit  == Do({c \in Deletes : Present(kv, c)})
+GDeleteMiss == NonEmpty /\ Do({c \in Deletes : ~Present(kv, c)})
+GListHit    == Do({c \in GenMenu : c.op = "list" /\ Hits(c)})
+GListMiss   == NonEmpty /\ Do({c \in GenMenu : c.op = "list" /\ ~Hits(c)})
+GQueryHit   == Do({c \in GenMenu : c.op = "query" /\ Hits(c)})
+GQueryMiss  == NonEmpty /\ Do({c \in GenMenu : c.op = "query" /\ ~Hits(c)})
 
 GenNext ==
-  /\ Len(hist) < MaxLen
-  /\ Next
-  /\ hist' = Append(hist, [c |-> last', exp |-> reply'.st])
+  \/ GCreateNew \/ GCreateNew \/ GCreateDup
+  \/ GUpdateHit \/ GUpdateMiss
+  \/ GGetHit \/ GGetMiss
+  \/ GDeleteHit \/ GDeleteMiss
+  \/ GListHit \/ GListMiss \/ GQueryHit \/ GQueryMiss
+  \/ Finish
 
-GenSpec == GenInit /\ [][GenNext]_gvars
+EnumSpec == GenInit /\ [][EnumNext]_gvars
+GenSpec  == GenInit /\ [][GenNext]_gvars
 
 GenExport ==
-  IF Len(hist) = MaxLen
+  IF done
   THEN /\ TLCSet(1, TLCGet(1) + 1)
        /\ JsonSerialize("gen/s" \o ToString(TLCGet(1)) \o ".json", [n |-> TLCGet(1), calls |-> hist])
   ELSE TRUE
